@@ -52,6 +52,13 @@ STRATA = {
     "rdkit_chem": (2000, 40000),
     "rdkit_graph": (2000, 50000),
 }
+# functions that must leave their arguments untouched (vf.core.PurityMonitor; '!' = the object itself is watched too)
+PURE = [
+    "biotite.structure.io.mol.ctab:write_structure_to_ctab",
+    "biotite.structure.io.mol.mol:MOLFile.set_structure",
+    "biotite.structure.io.mol.sdf:SDRecord.set_structure",
+    "biotite.interface.rdkit.mol:to_mol",
+]
 REQUIRED_ORACLES = [
     "atom_order_element", "coord_precision", "charge", "typed_bond_set",
     "v2000_columns", "v3000_text", "version_selection", "beyond_limit_raises",
